@@ -203,6 +203,35 @@ class TraceStack:
 
         return imp_dependency, include_use
 
+    def update_swap_operation(self, unique_instr: UniqueInstruction) -> bool:
+        """Simulate an instruction that swaps TOS with another value of the stack.
+
+        Such an instruction neither pops nor pushes a value, thus the instructions that
+        use the two swapped values simply exchange their positions on the stack.
+
+        Args:
+            unique_instr: the swapping instruction, its argument is the position of the
+                value (counted from TOS, which has position 1) that is swapped with TOS
+
+        Returns:
+            Whether one of the swapped values is used by an instruction in the slice
+        """
+        assert isinstance(unique_instr.arg, int)
+        position = unique_instr.arg
+        curr_block_stack = self.last_frame_stack.last_block
+        # Nothing is known about the uses of the values below the simulated stack, so
+        # their (missing) users are represented by the swap itself, which is not in the slice.
+        missing = position - len(curr_block_stack)
+        if missing > 0:
+            curr_block_stack[:0] = [(unique_instr, False)] * missing
+
+        self._logger.debug("STACK SWAPPING: TOS <-> TOS%s", position - 1)
+        curr_block_stack[-1], curr_block_stack[-position] = (
+            curr_block_stack[-position],
+            curr_block_stack[-1],
+        )
+        return curr_block_stack[-1][1] or curr_block_stack[-position][1]
+
     def update_pop_operations(
         self, num_pops: int, unique_instr: UniqueInstruction, *, in_slice: bool
     ) -> None:
